@@ -4,7 +4,7 @@
    FIN/RSV/opcode/mask combination, every length form, every payload - in every reassembly state, both roles,
    compression negotiated or not.  The UTF-8 validator, the inflater and the LZ77 window are parameters. *)
 From Gws Require Import Lib.Base Spec.MaskSpec Spec.Rfc6455 Spec.Rfc6455Recv Model.Header Model.CloseCode Model.Reader
-  Proofs.FrameProofs Proofs.ReaderProofs Proofs.ReaderRefine Proofs.FragmentProofs.
+  Proofs.FrameProofs Proofs.ReaderProofs Proofs.ReaderRefine Proofs.FragmentProofs Gen.Funcs Proofs.GenFuncsProofs.
 Local Open Scope N_scope.
 
 Section C03.
@@ -65,6 +65,15 @@ Theorem C03_fragmented_message : forall c st fuel comp op lf0 k0 p0 cs0 mids lfl
 Proof. exact (reader_fragmented_message utf8_valid inflate W wdict wwrite). Qed.
 End C03.
 
+(* Tie to the source: the header accessors the reader model uses (FIN, RSV1-3, opcode, mask bit, length code) are the
+   functions translator/funcs.go regenerates from types.go on every run, for every header byte *)
+Theorem C03_header_accessors_from_source : forall b, b < 256 ->
+  gf_gws_frameHeader_GetFIN (Z.of_N b) = get_fin b /\ gf_gws_frameHeader_GetRSV1 (Z.of_N b) = get_rsv1 b
+  /\ gf_gws_frameHeader_GetRSV2 (Z.of_N b) = get_rsv2 b /\ gf_gws_frameHeader_GetRSV3 (Z.of_N b) = get_rsv3 b
+  /\ gf_gws_frameHeader_GetOpcode (Z.of_N b) = Z.of_N (get_opcode b)
+  /\ gf_gws_frameHeader_GetMask (Z.of_N b) = get_mask b /\ gf_gws_frameHeader_GetLengthCode (Z.of_N b) = Z.of_N (get_lencode b).
+Proof. exact header_accessors_from_source. Qed.
+
 (* the reader is a function of the byte string alone: how the bytes are cut into network reads cannot matter in the
    model; the harness varies the chunking (whole, byte by byte, random) against the real code *)
 
@@ -92,3 +101,4 @@ Print Assumptions C03_frame_refines.
 Print Assumptions C03_stream_refines.
 Print Assumptions C03_control_inside_fragments.
 Print Assumptions C03_fragmented_message.
+Print Assumptions C03_header_accessors_from_source.
